@@ -7,7 +7,7 @@ import os
 import re
 
 from . import mir, smt
-from .common import EXIT_INCONCLUSIVE, EXIT_OK, EXIT_VIOLATION, REPLAY_DIR, log
+from .common import EXIT_INCONCLUSIVE, EXIT_OK, EXIT_VIOLATION, REPLAY_DIR, log, REPO
 
 
 def _unescape(s):
@@ -36,12 +36,15 @@ def _unescape(s):
 
 
 def load_table():
-    mir.get_mir()
-    cands = glob.glob(os.path.join(mir.MIR_DIR, "target", "debug", "build", "scryer-prolog-*",
-                                   "out", "static_atoms.rs"))
-    if not cands:
+    mpath, _s, _c = mir.get_mir()
+    path = mpath[:-4] + ".static_atoms.rs"
+    if not os.path.exists(path):
+        # MIR cached by an older version of this tool: regenerate together with the table
+        os.unlink(mpath)
+        mpath, _s, _c = mir.get_mir()
+        path = mpath[:-4] + ".static_atoms.rs"
+    if not os.path.exists(path):
         raise RuntimeError("static_atoms.rs not found in the MIR build output")
-    path = max(cands, key=os.path.getmtime)
     with open(path) as f:
         txt = f.read()
     m = re.search(r"static STRINGS: \[&str; (\d+)usize\] = \[(.*?)\n\];", txt, re.S)
@@ -93,6 +96,73 @@ def atom_order_wiring():
             ok = ok and good
         res.append(ok)
     return bool(res) and all(res)
+
+
+def inline_rule_wiring():
+    """AtomTable::build_with (the run-time creation path of every atom): z3 decides that the set
+    of strings sent to Atom::new_inlined is exactly { s : 1 <= len(s) <= 6, no NUL in s } - the
+    rule the build script applies to the atom! table (checked against the table separately).
+    len, is_empty and contains('\\0') of the argument are the symbolic inputs (is_empty <=> len = 0);
+    any other test in the guard is an unconstrained input and makes the query satisfiable.
+    -> (answer, note)"""
+    from .mirsmt import core, util
+    from .mirsmt.smtgen import Encoder
+    mir, _s, _c = util.get()
+    with open(os.path.join(REPO, "src/atom_table.rs")) as f:
+        m = re.search(r"const INLINED_ATOM_MAX_LEN: usize = (\d+);", f.read())
+    if not m:
+        return None, "INLINED_ATOM_MAX_LEN not found"
+    maxlen = int(m.group(1))
+    body = None
+    for n in mir.index:
+        if re.match(r"^atom_table::<impl at [^>]*>::build_with$", n):
+            b = mir.body(n)
+            if "&atom_table::AtomTable" in b.header.split("\n")[0]:
+                body = b
+    if body is None:
+        return None, "AtomTable::build_with not found"
+    heads = util.back_edge_targets(body)
+    paths = core.Executor(body, stop_blocks=tuple(heads), max_depth=200, max_paths=500).run("bb0")
+    enc = Encoder()
+
+    def boolish(t):
+        return t[0] == "app" and re.search(r"is_empty$|contains$|ends_with$|starts_with$|is_char_boundary$", t[1])
+    inline, other = [], []
+    for p in paths:
+        f = enc.conj([(("c", maxlen) if False else c[0], c[1], c[2]) for c in p.conds], boolish)
+        ni = [e for e in p.events if e[0] == "call" and e[1].endswith("Atom::new_inlined")]
+        if ni and p.end == "return" and ni[0][2][0] == ("s", "_2"):
+            inline.append(f)
+        else:
+            other.append(f)
+    if not inline:
+        return None, "no path to Atom::new_inlined"
+    # tie the leaves to the three symbolic inputs
+    ax = []
+    ln = em = ct = None
+    for t in enc.order:
+        key = t[0] if (isinstance(t, tuple) and len(t) == 2 and t[1] in ("Bool",)) else t
+        name = enc.leaves[t][0]
+        if key[0] == "app" and key[2] and key[2][0] == ("s", "_2"):
+            if key[1].endswith("str>::len"):
+                ln = name
+            elif key[1].endswith("str>::is_empty"):
+                em = name
+            elif key[1].endswith("str>::contains") and len(key[2]) == 2 and key[2][1] == ("k", "'\\0'"):
+                ct = name
+        if key[0] == "k" and key[1].endswith("INLINED_ATOM_MAX_LEN"):
+            ax.append("(= %s #x%016x)" % (name, maxlen))
+    if ln is None:
+        return "sat", "the guard does not test len(string)"
+    spec = "(and (bvuge %s #x0000000000000001) (bvule %s #x%016x) %s)" % (
+        ln, ln, 6, "(not %s)" % ct if ct else "false")
+    if em:
+        ax.append("(= %s (= %s #x0000000000000000))" % (em, ln))
+    q = enc.decls() + "\n(assert (and true %s))\n(assert (not (= (or false %s) %s)))" % (
+        " ".join(ax), " ".join(inline), spec)
+    r = smt.check("(set-logic ALL)\n(push)\n" + q + "\n(check-sat)\n(pop)\n")
+    ans = r["answers"][0] if r.get("answers") else None
+    return ans, "%d guard paths, %d to new_inlined" % (len(paths), len(inline))
 
 
 def run():
@@ -150,8 +220,25 @@ def run():
         "smt_seconds": r["z3_s"],
     }
     table_ok = ans == ["unsat", "unsat"] and not bad_struct
+    try:
+        ir, note = inline_rule_wiring()
+    except Exception as e:  # noqa
+        ir, note = None, "cannot analyse (%s)" % e
+    log("  AtomTable::build_with inlines exactly the texts with 1 <= len <= 6 and no NUL: %s (%s)" % (ir, note))
+    res["evaluations"] += 1
+    res["distinct_nontrivial"] += 1 if ir == "unsat" else 0
+    res["samples"].append({"query": "run-time inline guard == build-script inline rule", "answer": ir, "note": note})
     if ans is None:
         res["exit"] = EXIT_INCONCLUSIVE
+    elif ir != "unsat" and table_ok and order_ok:
+        from . import prolog
+        rp = prolog.replay_atom_identity([{"obligation": "inline guard", "answer": ir, "note": note}])
+        if ir == "sat" and rp["reproduced"]:
+            log("VIOLATION property=C21 replay=%s" % rp["path"])
+            res["exit"] = EXIT_VIOLATION
+        else:
+            log("  inline guard not confirmed (%s) and the replay set answers as specified -> inconclusive" % ir)
+            res["exit"] = EXIT_INCONCLUSIVE
     elif not table_ok:
         os.makedirs(os.path.join(REPLAY_DIR, "C21"), exist_ok=True)
         rp = os.path.join(REPLAY_DIR, "C21", "static_table.txt")
